@@ -157,7 +157,7 @@ def frames_ok(s, written_cell=None):
 SYMVAL = Fork([Xl('Number', 'real', domain=[1.5, -2.0]), Xl('Text', 'str', domain=['x', '']), Xl('Boolean', 'bool'), XlErr('DivZeroExcelError')])
 
 # (a) formula cell
-UNITS.append(Unit(cross_key=_key,
+UNITS.append(Unit(ghost=True, cross_key=_key,
     id='C04/evaluator.Evaluator.evaluate/formula_cell', target='xlcalculator.evaluator:Evaluator.evaluate', prop='C04',
     inputs=[('value', SYMVAL)],
     cases=[Case('result is what the formula yields under a context for this cell; it becomes the stored value; nothing stale is read',
@@ -169,7 +169,7 @@ UNITS.append(Unit(cross_key=_key,
     canary=Case('canary', lambda v: True, lambda v, out: out.kind == 'ret' and out.value['F_value'] == 'STALE-F'),
     call=run(False, F_ADDR), native_call=run(True, F_ADDR)))
 # through a defined name
-UNITS.append(Unit(cross_key=_key,
+UNITS.append(Unit(ghost=True, cross_key=_key,
     id='C04/evaluator.Evaluator.evaluate/defined_name', target='xlcalculator.evaluator:Evaluator.evaluate', prop='C04',
     inputs=[('value', SYMVAL)],
     cases=[Case('a defined name bound to a cell evaluates that cell', lambda v: True,
@@ -193,12 +193,12 @@ def _const_ok(v, out):
     return And(same, out.value['log'] == [], out.value['stack_restored'], out.value['F_value'] == 'STALE-F', frames_ok(out.value, None))
 
 
-UNITS.append(Unit(cross_key=_key,
+UNITS.append(Unit(ghost=True, cross_key=_key,
     id='C05/evaluator.Evaluator.evaluate/constant_cell', target='xlcalculator.evaluator:Evaluator.evaluate', prop='C05',
     inputs=[('value', CONSTS)],
     cases=[Case('a constant cell yields its value as an Excel value; nothing is written or evaluated', lambda v: True, _const_ok)],
     call=run(False, K_ADDR, behaviour='constant'), native_call=run(True, K_ADDR, behaviour='constant')))
-UNITS.append(Unit(cross_key=_key,
+UNITS.append(Unit(ghost=True, cross_key=_key,
     id='C05/evaluator.Evaluator.evaluate/missing_cell', target='xlcalculator.evaluator:Evaluator.evaluate', prop='C05', inputs=[],
     cases=[Case('an address without a cell reads as blank; nothing is written, no cell appears', lambda: True,
                 lambda out: out.kind == 'ret' and out.value['exc'] is None and isinstance(out.value['res'], T().Blank)
@@ -214,7 +214,7 @@ def _fail_ok(out, cycle=False):
         and s['F_need'] is True and frames_ok(s, None)
 
 
-UNITS.append(Unit(cross_key=_key,
+UNITS.append(Unit(ghost=True, cross_key=_key,
     id='C06/evaluator.Evaluator.evaluate/failure_restores_stack', target='xlcalculator.evaluator:Evaluator.evaluate', prop='C06', inputs=[],
     cases=[Case('a failing formula raises, leaves the stored value alone and pops the cell from the evaluation path', lambda: True,
                 lambda out: _fail_ok(out) and out.value['log'] == [('eval', F_ADDR, 'Sheet1')])],
@@ -235,7 +235,7 @@ def _msg_bound(inner, formula, out):
     return _msg_len(exc) <= S.length(inner) + S.length(formula) + len(F_ADDR) + 60
 
 
-UNITS.append(Unit(cross_key=_key,
+UNITS.append(Unit(ghost=True, cross_key=_key,
     id='C06/evaluator.Evaluator.evaluate/message_growth', target='xlcalculator.evaluator:Evaluator.evaluate', prop='C06',
     inputs=[('inner', Prim('str', domain=['x', 'Problem evaluating cell Sheet1!A2 formula =A3+1: ValueError("q\'q")'])),
             ('formula', Prim('str', domain=['=A2+1', '="it\'s"&A2']))],
@@ -245,12 +245,12 @@ UNITS.append(Unit(cross_key=_key,
 
 # (f) a cell already being evaluated is a cycle - reported before its formula is touched
 for _stack, _lab in (((F_ADDR,), 'self'), ((G_ADDR, F_ADDR), 'below'), ((F_ADDR, G_ADDR), 'above')):
-    UNITS.append(Unit(cross_key=_key,
+    UNITS.append(Unit(ghost=True, cross_key=_key,
         id=f'C06/evaluator.Evaluator.evaluate/cycle[{_lab}]', target='xlcalculator.evaluator:Evaluator.evaluate', prop='C06', inputs=[],
         cases=[Case('a cell already on the evaluation path raises a cycle report without evaluating its formula', lambda: True,
                     lambda out: _fail_ok(out) and out.value['log'] == [] and 'ycle' in str(out.value['exc']))],
         call=run(False, F_ADDR, stack=_stack), native_call=run(True, F_ADDR, stack=_stack)))
-UNITS.append(Unit(cross_key=_key,
+UNITS.append(Unit(ghost=True, cross_key=_key,
     id='C06/evaluator.Evaluator.evaluate/no_false_cycle', target='xlcalculator.evaluator:Evaluator.evaluate', prop='C06',
     inputs=[('value', SYMVAL)],
     cases=[Case('other cells on the evaluation path (diamonds, repeated references) do not make this cell a cycle', lambda v: True,
@@ -286,7 +286,7 @@ def ctx_call(native):
     return call
 
 
-UNITS.append(Unit(cross_key=_key,
+UNITS.append(Unit(ghost=True, cross_key=_key,
     id='C05/evaluator.EvaluatorContext/memo_is_per_context', target='xlcalculator.evaluator:EvaluatorContext.eval_cell', prop='C05', inputs=[],
     cases=[Case('a context evaluates each cell once through evaluate(addr, None); another context shares nothing; its sheet is the sheet of its cell',
                 lambda: True,
@@ -314,7 +314,7 @@ def scan_memo(*a):
     return bad
 
 
-UNITS.append(Unit(cross_key=_key,
+UNITS.append(Unit(ghost=True, cross_key=_key,
     id='C05/evaluation_path/no_process_lifetime_memo', target='xlcalculator.evaluator:Evaluator.evaluate', prop='C05', inputs=[],
     cases=[Case('no function or class on the evaluation path is wrapped in functools.lru_cache / cache (a process-lifetime memo keyed on its arguments keeps every context alive)',
                 lambda: True, lambda out: out.kind == 'ret' and out.value == [])],
@@ -404,7 +404,7 @@ def _hkey(s):
 
 for _how, _second, _prop in (('address', False, 'C04'), ('name', False, 'C04'), ('absent', False, 'C04'), ('none', True, 'C05'), ('absent', True, 'C05'),
                              ('name', True, 'C05'), ('address', True, 'C05')):
-    UNITS.append(Unit(cross_key=_hkey,
+    UNITS.append(Unit(ghost=True, cross_key=_hkey,
         id=f'{_prop}/evaluator.Evaluator/history[evaluate; set input by {_how}; evaluate{"; a second evaluator" if _second else ""}]',
         target='xlcalculator.evaluator:Evaluator.evaluate', prop=_prop,
         inputs=[('v0', CONSTS), ('v1', CONSTS)], fork='star',
@@ -469,7 +469,7 @@ def setcell_ens(how):
 
 for _prop in ('C04', 'C13'):
     for _how in ('address', 'name', 'name-copy', 'absent'):
-        UNITS.append(Unit(cross_key=lambda s: repr((s['value'], s['keys'])) if isinstance(s, dict) else repr(s),
+        UNITS.append(Unit(ghost=True, cross_key=lambda s: repr((s['value'], s['keys'])) if isinstance(s, dict) else repr(s),
             id=f'{_prop}/model.Model.set_cell_value[{_how}]', target='xlcalculator.model:Model.set_cell_value', prop=_prop,
             inputs=[('v0', CONSTS), ('v1', CONSTS)], fork='star',
             cases=[Case('afterwards the cell AT the address (the address a name stands for) holds the value - also when the name keeps its own copy of the cell, as in an extracted or restored model; nothing else changes',
